@@ -118,10 +118,16 @@ func (r *scopeRegistry) Report(reporter StatsReporter) {
 		subscopeBucket.mu.RLock()
 
 		for name, s := range subscopeBucket.s {
+			// n.b. Read the closed flag before reporting: everything recorded
+			//      before Close is then covered by this report, and a scope
+			//      closed while it is being reported is picked up by the next
+			//      pass instead of being dropped with unreported values.
+			closed := s.closed.Load()
+
 			s.report(reporter)
 
-			if s.closed.Load() {
-				r.removeWithRLock(subscopeBucket, name)
+			if closed {
+				r.removeWithRLock(subscopeBucket, name, s)
 				s.clearMetrics()
 			}
 		}
@@ -138,10 +144,16 @@ func (r *scopeRegistry) CachedReport() {
 		subscopeBucket.mu.RLock()
 
 		for name, s := range subscopeBucket.s {
+			// n.b. Read the closed flag before reporting: everything recorded
+			//      before Close is then covered by this report, and a scope
+			//      closed while it is being reported is picked up by the next
+			//      pass instead of being dropped with unreported values.
+			closed := s.closed.Load()
+
 			s.cachedReport()
 
-			if s.closed.Load() {
-				r.removeWithRLock(subscopeBucket, name)
+			if closed {
+				r.removeWithRLock(subscopeBucket, name, s)
 				s.clearMetrics()
 			}
 		}
@@ -208,8 +220,8 @@ func (r *scopeRegistry) Subscope(parent *scope, prefix string, tags map[string]s
 	// If a scope was found above but we didn't return, we need to remove the
 	// scope from both keys.
 	if ok {
-		r.removeWithRLock(subscopeBucket, unsanitizedKey)
-		r.removeWithRLock(subscopeBucket, sanitizedKey)
+		r.removeWithRLock(subscopeBucket, unsanitizedKey, s)
+		r.removeWithRLock(subscopeBucket, sanitizedKey, s)
 		s.clearMetrics()
 	}
 
@@ -286,14 +298,19 @@ func (r *scopeRegistry) purgeIfRootClosed() {
 	}
 }
 
-func (r *scopeRegistry) removeWithRLock(subscopeBucket *scopeBucket, key string) {
+func (r *scopeRegistry) removeWithRLock(subscopeBucket *scopeBucket, key string, s *scope) {
 	// n.b. This function must lock the registry for writing and return it to an
 	//      RLocked state prior to exiting. Defer order is important (LIFO).
 	subscopeBucket.mu.RUnlock()
 	defer subscopeBucket.mu.RLock()
 	subscopeBucket.mu.Lock()
 	defer subscopeBucket.mu.Unlock()
-	delete(subscopeBucket.s, key)
+	// n.b. The lock was released in between: only remove the entry if it still
+	//      refers to the closed scope, not a live scope re-created under the
+	//      same key in the meantime.
+	if subscopeBucket.s[key] == s {
+		delete(subscopeBucket.s, key)
+	}
 }
 
 // Records internal Metrics' cardinalities.
